@@ -419,6 +419,13 @@ pub fn check_utf8(c: &Utf8Case) -> Result<(), String> {
     if is_str(&exact) != exp {
         return Err(format!("diplomat_is_str({:02x?}) unstable across buffers", c.bytes));
     }
+    if c.bytes.is_empty() {
+        // foreign callers pass the empty string as (NULL, 0), e.g. a default std::string_view
+        if !unsafe { diplomat_is_str(std::ptr::null(), 0) } {
+            return Err("diplomat_is_str(NULL, 0) = false; the empty string is valid UTF-8".into());
+        }
+        label("utf8:null-empty");
+    }
     if exp {
         label("utf8:valid");
     } else {
